@@ -304,106 +304,158 @@ theorem hyperplaneData_ideal_independent (h2 : (2 : K) ≠ 0)
 
 end field
 
-/-! ## the eigenvalue test of `from_reflection` -/
+/-! ## the acceptance test of `from_reflection` -/
 
 section ordered
 variable {K : Type*} [Field K] [LinearOrder K] [IsStrictOrderedRing K]
 
-/-- a reflection's spectrum `{-1, 1, …, 1}` (in any order) passes the test -/
-theorem fromReflection_accepts (ε : K) (hε : 0 ≤ ε) (evals : List K) (k : ℕ)
-    (h : evals.Perm ((-1 : K) :: List.replicate k 1)) : isReflSpectrum ε evals = true := by
-  have hlen : evals.length = k + 1 := by rw [h.length_eq]; simp
-  have hsorted : ((-1 : K) :: List.replicate k 1).Pairwise (fun a b => decide (a ≤ b) = true) := by
-    rw [List.pairwise_cons]
-    refine ⟨fun a ha => ?_, ?_⟩
-    · rw [List.eq_of_mem_replicate ha]; simp
-    · rw [List.pairwise_replicate]; simp
-  have hs : evals.mergeSort (fun a b => decide (a ≤ b)) = (-1 : K) :: List.replicate k 1 := by
-    have hp : (evals.mergeSort (fun a b => decide (a ≤ b))).Perm ((-1 : K) :: List.replicate k 1) :=
-      (List.mergeSort_perm _ _).trans h
-    have hsort := List.pairwise_mergeSort (le := fun (a b : K) => decide (a ≤ b))
-      (fun a b c hab hbc => by simp at *; exact le_trans hab hbc)
-      (fun a b => by simp; exact le_total a b) evals
-    exact List.Perm.eq_of_pairwise (fun a b _ _ hab hba => by
-      simp at hab hba; exact le_antisymm hab hba) hsort hsorted hp
-  unfold isReflSpectrum
-  rw [hs, hlen]
-  simp only [expectedEvals, List.zip_cons_cons, List.all_cons, List.all_eq_true, Bool.and_eq_true,
-    decide_eq_true_eq]
-  refine ⟨by simpa using hε, ?_⟩
-  intro p hp
-  have := List.of_mem_zip hp
-  rw [List.eq_of_mem_replicate this.1, List.eq_of_mem_replicate this.2]; simpa using hε
+/-- the trace of a reflection of `H^n` is `n - 1` -/
+theorem trace_reflMat (d : Fin (n + 1) → K) (hd : mink d d ≠ 0) :
+    Matrix.trace (reflMat d) = (n : K) - 1 := by
+  unfold Matrix.trace
+  simp only [Matrix.diag, reflMat, if_true]
+  rw [Finset.sum_sub_distrib]
+  have h : ∑ i, 2 * Jvec d i * d i / mink d d = 2 := by
+    simp only [div_eq_mul_inv]
+    rw [← Finset.sum_mul, ← div_eq_mul_inv, div_eq_iff hd]
+    have : ∑ i, 2 * Jvec d i * d i = 2 * mink d d := by
+      rw [mink_eq_sum, Finset.mul_sum]
+      refine Finset.sum_congr rfl fun i _ => ?_
+      unfold Jvec; split_ifs with h
+      · subst h; ring
+      · ring
+    rw [this]
+  rw [h]; simp; ring
 
-/-- the representative `R` of a reflection of `H^k` (`k ≥ 1`) already has non-negative trace … -/
-theorem traceRep_reflection (evals : List K) (k : ℕ) (hk : 1 ≤ k)
-    (h : evals.Perm ((-1 : K) :: List.replicate k 1)) : traceRep evals = evals := by
+/-- every row of `reflMat d − 1` is a multiple of `d` -/
+theorem offsetRow_reflMat (d : Fin (n + 1) → K) (k : Fin (n + 1)) :
+    offsetRow (reflMat d) k = fun j => (-2 * Jvec d k / mink d d) * d j := by
+  funext j; unfold offsetRow reflMat; ring
+
+theorem largestRow_max (M : Matrix (Fin (n + 1)) (Fin (n + 1)) K) (k : Fin (n + 1)) :
+    nsq (offsetRow M k) ≤ nsq (offsetRow M (largestRow M)) := by
+  unfold largestRow
+  cases h : (List.finRange (n + 1)).argmax fun k => nsq (offsetRow M k) with
+  | none =>
+    have := List.argmax_eq_none.1 h
+    simp at this
+  | some m =>
+    simp only [Option.getD_some]
+    exact List.le_of_mem_argmax (f := fun k => nsq (offsetRow M k)) (List.mem_finRange k) h
+
+
+theorem traceRep_reflection (d : Fin (n + 1) → K) (hd : mink d d ≠ 0) (hn : 1 ≤ n) :
+    traceRep (reflMat d) = reflMat d := by
   unfold traceRep
-  have hs : evals.sum = (k : K) - 1 := by
-    rw [h.sum_eq]; simp; ring
-  have : ¬ evals.sum < 0 := by
-    rw [hs, not_lt, sub_nonneg]; exact_mod_cast hk
-  rw [if_neg this]
+  rw [trace_reflMat d hd, if_neg]
+  rw [not_lt, sub_nonneg]; exact_mod_cast hn
 
-/-- … and **the other representative `-R`** (spectrum `{1, -1, …, -1}`, `k ≥ 2`) is accepted as
-well: the isometry is the same reflection -/
-theorem fromReflection_accepts_neg (ε : K) (hε : 0 ≤ ε) (evals : List K) (k : ℕ) (hk : 2 ≤ k)
-    (h : evals.Perm ((1 : K) :: List.replicate k (-1))) :
-    isReflSpectrum ε (traceRep evals) = true := by
-  have hs : evals.sum = 1 - (k : K) := by
-    rw [h.sum_eq]; simp; ring
-  have hneg : evals.sum < 0 := by
-    rw [hs, sub_neg]; exact_mod_cast hk
-  unfold traceRep
-  rw [if_pos hneg]
-  apply fromReflection_accepts ε hε _ k
-  have := h.map (fun x : K => -x)
-  simpa using this
+/-- the normal read off a reflection is a non-zero multiple of its normal -/
+theorem reflNormal_reflMat (d : Fin (n + 1) → K) (hd : mink d d ≠ 0) (hn : 1 ≤ n) :
+    ∃ c : K, c ≠ 0 ∧ reflNormal (reflMat d) = fun j => c * d j := by
+  unfold reflNormal
+  rw [traceRep_reflection d hd hn]
+  set k := largestRow (reflMat d) with hk
+  refine ⟨-2 * Jvec d k / mink d d, ?_, offsetRow_reflMat d k⟩
+  -- some row is non-zero, so the largest one is
+  have hd0 : d ≠ 0 := by
+    intro h; apply hd; rw [h]; simp [mink, dot, Fin.tail]
+  obtain ⟨k₀, hk₀⟩ : ∃ k₀, d k₀ ≠ 0 := by
+    by_contra h; push Not at h; exact hd0 (funext h)
+  have hJ : Jvec d k₀ ≠ 0 := by
+    unfold Jvec; split_ifs with h
+    · subst h; simpa using hk₀
+    · exact hk₀
+  have hpos : 0 < nsq d := by
+    unfold nsq dot
+    calc 0 < d k₀ * d k₀ := mul_self_pos.2 hk₀
+      _ ≤ ∑ i, d i * d i :=
+        Finset.single_le_sum (f := fun i => d i * d i) (fun i _ => mul_self_nonneg (d i)) (Finset.mem_univ k₀)
+  have hnsq : ∀ k', nsq (offsetRow (reflMat d) k') = (-2 * Jvec d k' / mink d d) ^ 2 * nsq d := by
+    intro k'
+    rw [offsetRow_reflMat]
+    unfold nsq dot
+    rw [Finset.mul_sum]
+    exact Finset.sum_congr rfl fun i _ => by ring
+  have hmax := largestRow_max (reflMat d) k₀
+  rw [hnsq, hnsq] at hmax
+  have hc0 : (-2 * Jvec d k₀ / mink d d) ≠ 0 := div_ne_zero (mul_ne_zero (by norm_num) hJ) hd
+  have h0 : 0 < (-2 * Jvec d k₀ / mink d d) ^ 2 * nsq d :=
+    mul_pos (lt_of_le_of_ne (sq_nonneg _) (Ne.symm (pow_ne_zero 2 hc0))) hpos
+  intro hc
+  rw [hc] at hmax
+  have : (0 : K) ^ 2 * nsq d = 0 := by ring
+  linarith
 
-/-- **a non-reflection is rejected**: if the test passes (with `ε < 1`), the spectrum has
-exactly one eigenvalue within `ε` of `-1` and every other eigenvalue within `ε` of `1` — so an
-isometry whose spectrum is not of this form (identity, rotations, loxodromics, products of
-several reflections) raises `GeometryError` -/
-theorem fromReflection_rejects (ε : K) (hε : ε < 1) (evals : List K)
-    (h : isReflSpectrum ε evals = true) (hne : evals ≠ []) :
-    ∃ a rest, evals.Perm (a :: rest) ∧ |a + 1| ≤ ε ∧ ∀ x ∈ rest, |x - 1| ≤ ε := by
-  unfold isReflSpectrum at h
-  set s := evals.mergeSort (fun a b => decide (a ≤ b)) with hs
-  have hp : s.Perm evals := List.mergeSort_perm _ _
-  have hl : s.length = evals.length := hp.length_eq
-  cases hse : s with
-  | nil =>
-    exfalso; apply hne
-    have : evals.length = 0 := by rw [← hl, hse]; rfl
-    exact List.length_eq_zero_iff.1 this
-  | cons a rest =>
-    refine ⟨a, rest, (hse ▸ hp).symm, ?_, ?_⟩
-    · rw [hse] at h hl
-      have : evals.length = rest.length + 1 := by rw [← hl]; rfl
-      rw [this] at h
-      simp [expectedEvals] at h
-      exact h.1
-    · rw [hse] at h hl
-      have hlen : evals.length = rest.length + 1 := by rw [← hl]; rfl
-      rw [hlen] at h
-      simp only [expectedEvals, List.zip_cons_cons, List.all_cons, Bool.and_eq_true] at h
-      intro x hx
-      have hall := h.2
-      rw [List.all_eq_true] at hall
-      obtain ⟨i, hi, rfl⟩ := List.getElem_of_mem hx
-      have hmem : (rest[i], (1 : K)) ∈ rest.zip (List.replicate rest.length 1) := by
-        rw [List.mem_iff_getElem]
-        refine ⟨i, by simp [hi], by simp⟩
-      simpa using hall _ hmem
-
-/-- the second stage of the acceptance decision: a `(-1)`-eigenvector that is not spacelike is
-refused whatever the spectrum -/
-theorem fromReflection_rejects_nonspacelike (ε : K) (evals : List K) (vnorm : K)
-    (h : vnorm ≤ ε) : fromReflectionAccepts ε evals vnorm = false := by
+/-- **a reflection is accepted**: for a spacelike normal `d` (`n ≥ 1`), `from_reflection` accepts
+`reflMat d` for every tolerance `ε ≥ 0`, and the normal it reads off is a non-zero multiple of `d` -/
+theorem fromReflection_accepts (ε : K) (hε : 0 ≤ ε) (d : Fin (n + 1) → K) (hd : 0 < mink d d)
+    (hn : 1 ≤ n) : fromReflectionAccepts ε (reflMat d) = true := by
+  obtain ⟨c, hc, hN⟩ := reflNormal_reflMat d hd.ne' hn
   unfold fromReflectionAccepts
-  simp [not_lt.2 h]
+  rw [hN, traceRep_reflection d hd.ne' hn, reflMat_smul d c hc hd.ne']
+  simp only [sub_self, abs_zero, Bool.and_eq_true, decide_eq_true_eq]
+  refine ⟨fun _ _ => mul_nonneg hε (le_trans zero_le_one (le_max_left _ _)), ?_⟩
+  rw [mink_mul_left, mink_mul_right]
+  have : 0 < c * c := mul_self_pos.2 hc
+  nlinarith
 
-/-- … and this is what separates a reflection from the point reflection `x ↦ x − 2⟨x,p⟩/⟨p,p⟩ p`
+/-- **the other representative `-R`** of a reflection of `H^n`, `n ≥ 2`, is accepted as well -/
+theorem fromReflection_accepts_neg (ε : K) (hε : 0 ≤ ε) (d : Fin (n + 1) → K) (hd : 0 < mink d d)
+    (hn : 2 ≤ n) : fromReflectionAccepts ε (-reflMat d) = true := by
+  have htr : traceRep (-reflMat d) = reflMat d := by
+    unfold traceRep
+    rw [Matrix.trace_neg, trace_reflMat d hd.ne', if_pos, neg_neg]
+    rw [neg_lt_zero, sub_pos]; exact_mod_cast hn
+  have := fromReflection_accepts ε hε d hd (by omega)
+  unfold fromReflectionAccepts reflNormal at this ⊢
+  rw [htr]
+  rwa [traceRep_reflection d hd.ne' (by omega)] at this
+
+/-- **a non-reflection is rejected** (soundness of the test): whatever is accepted agrees, up to
+`ε · max(1, |M|)` entrywise, with the closed-form reflection in a spacelike vector; for `ε = 0` it
+*is* that reflection -/
+theorem fromReflection_rejects (ε : K) (M : Matrix (Fin (n + 1)) (Fin (n + 1)) K)
+    (h : fromReflectionAccepts ε M = true) :
+    0 < mink (reflNormal M) (reflNormal M) ∧
+    (∀ i j, |traceRep M i j - reflMat (reflNormal M) i j| ≤ ε * max 1 (matMax (traceRep M))) ∧
+    (ε = 0 → traceRep M = reflMat (reflNormal M)) := by
+  unfold fromReflectionAccepts at h
+  simp only [Bool.and_eq_true, decide_eq_true_eq] at h
+  refine ⟨h.2, h.1, fun h0 => ?_⟩
+  ext i j
+  have := h.1 i j
+  rw [h0, zero_mul] at this
+  exact sub_eq_zero.1 (abs_nonpos_iff.1 this)
+
+/-- the identity is rejected -/
+theorem fromReflection_rejects_identity (ε : K) :
+    fromReflectionAccepts ε (1 : Matrix (Fin (n + 1)) (Fin (n + 1)) K) = false := by
+  have htr : traceRep (1 : Matrix (Fin (n + 1)) (Fin (n + 1)) K) = 1 := by
+    unfold traceRep
+    rw [Matrix.trace_one, if_neg]
+    simp; positivity
+  have hN : reflNormal (1 : Matrix (Fin (n + 1)) (Fin (n + 1)) K) = 0 := by
+    unfold reflNormal; rw [htr]
+    funext j; unfold offsetRow; simp [Matrix.one_apply]
+  unfold fromReflectionAccepts
+  rw [hN]
+  simp [mink, dot, Fin.tail]
+
+/-- the second stage of the decision: the point reflection `x ↦ x − 2⟨x,p⟩/⟨p,p⟩ p` about a
+*timelike* `p` (an involutive isometry with the spectrum `(-1, 1, …, 1)` of a reflection, the
+negatively scaled half-turn) passes the comparison but is refused, because the vector read off
+it is timelike -/
+theorem fromReflection_rejects_nonspacelike (ε : K) (p : Fin (n + 1) → K) (hp : mink p p < 0)
+    (hn : 1 ≤ n) : fromReflectionAccepts ε (reflMat p) = false := by
+  obtain ⟨c, hc, hN⟩ := reflNormal_reflMat p hp.ne hn
+  unfold fromReflectionAccepts
+  rw [hN, mink_mul_left, mink_mul_right]
+  have : 0 < c * c := mul_self_pos.2 hc
+  have : ¬ 0 < c * (c * mink p p) := by nlinarith
+  simp [this]
+
+/-- … in eigenvector terms: what separates a reflection from the point reflection `x ↦ x − 2⟨x,p⟩/⟨p,p⟩ p`
 about a *timelike* `p` (the negatively scaled half-turn), which is also an involutive isometry with
 spectrum `(-1, 1, …, 1)`: every `(-1)`-eigenvector of `reflMat d` has Minkowski norm
 `(⟨v,d⟩/⟨d,d⟩)²·⟨d,d⟩`, of the sign of `⟨d,d⟩` — spacelike for a reflection across a wall,
@@ -639,11 +691,7 @@ end refine
 example : mink (![1/5, 1, 3/10] : Fin 3 → ℚ) ![1/5, 1, 3/10] ≠ 0 := by
   simp [mink, dot, Fin.sum_univ_succ, Fin.tail]; norm_num
 
-/-- the spectrum of a reflection of `H²`, in the order `eig` might return it, passes -/
-example : isReflSpectrum (1 / 100000000 : ℚ) [1, -1, 1] = true :=
-  fromReflection_accepts _ (by norm_num) _ 2 (List.Perm.swap _ _ _)
-
-/-- the selection always reports something when `eig` returned something -/
+/-- a single candidate is returned as it is -/
 example (e : EigInfo ℚ) : fixOrder (1 / 100000000 : ℚ) [e] = [0] := by
   simp [fixOrder]
 
